@@ -58,6 +58,11 @@ func (vc *ConnCursor) Rowid() (int64, error) {
 }
 
 func (vc *ConnCursor) Column(context *sqlite.VirtualTableContext, i int) error {
+	if context.NoChange() {
+		// UPDATE does not assign this column: leave it flagged no-change, so
+		// that Update keeps the attribute exactly as it is
+		return nil
+	}
 	switch i {
 	case 0:
 		if vc.vm.sc.deadline.IsZero() {
